@@ -2,7 +2,7 @@
    the C19/ files; Print Assumptions is evaluated by ./check on every run. *)
 From Coq Require Import List ZArith Bool Permutation.
 From TskVerif Require Import Base.Common C19.Model C19.IbdAlg C19.RunsProofs C19.StoreProofs
-  C19.SpecProofs C19.AlgProofs C19.SliceProofs C19.RefineProofs C19.TwoPos C19.FullProofs C19.GroupProofs C19.TotalProofs C19.FacadeProofs C19.StoreSpec.
+  C19.SpecProofs C19.AlgProofs C19.SliceProofs C19.RefineProofs C19.TwoPos C19.FullProofs C19.GroupProofs C19.TotalProofs C19.FacadeProofs C19.StoreSpec C19.QueueProofs.
 Import ListNotations.
 Open Scope Z_scope.
 
@@ -322,3 +322,23 @@ Theorem store_refines_spec :
          store_keys st = map fst r /\ store_num_pairs st = res_num_pairs r /\
          Forall2 (row_ok (num_nodes c) ss) (st_map st) r).
 Proof. exact store_refines_spec_lemma. Qed.
+
+(* ---- the growable per-edge segment queue (capacity 64, doubling) ---------------------------------------- *)
+
+(* for ANY initial capacity >= 1 and any number of pushed segments: nothing is lost or reordered across
+   growths, the write index stays inside the array, one slot stays free *)
+Theorem queue_growth_no_loss :
+  forall (cap : nat) (xs : list seg), (1 <= cap)%nat ->
+    exists q, cq_fill (mkCQ cap []) xs = Ok q /\ cq_items q = xs /\ (length xs < cq_cap q)%nat.
+Proof. exact queue_growth_no_loss_lemma. Qed.
+
+(* hence the list queue of the sweep model is exactly the content of the C array queue *)
+Theorem queue_of_is_array_content :
+  forall ms2 e cs, exists q, cq_fill (mkCQ 64 []) (queue_of ms2 e cs) = Ok q /\ cq_items q = queue_of ms2 e cs.
+Proof. exact queue_of_is_array_content_lemma. Qed.
+
+(* "grow only when full, and the grow branch forgets to append" (seeded change C19-10) loses an element *)
+Theorem queue_growth_mutant_refuted :
+  exists (cap : nat) (xs : list seg) (q : cqueue),
+    (1 <= cap)%nat /\ cq_fill_mutant (mkCQ cap []) xs = Ok q /\ cq_items q <> xs.
+Proof. exact queue_growth_mutant_refuted_lemma. Qed.
